@@ -29,7 +29,7 @@ CLAIMED["C04"] = (
     "DESIGN.md 3/C04",
 )
 CLAIMED["C20"] = (
-    "runtime monitor with an independent shadow interpreter and symbolic tape-to-graph matching: expected trace entries derived from the shadow's operand values (points) or the backend's own operand intervals (boxes, all-nodes twin); VM trace == JIT trace; shapes and metadata of functions vs tapes",
+    "runtime monitor with an independent shadow interpreter and symbolic tape-to-graph matching: expected trace entries derived from the shadow's operand values (points) or the backend's own operand intervals (boxes, all-nodes twin); VM trace == JIT trace; shapes and metadata of functions vs tapes; bulk output shapes (outputs x samples) with long-lived evaluators over functions of different output counts",
     "Held on every generated program/point/box observed (counts of entries checked per op and entry kind in evidence). Exploration.",
     "Choice sites whose operands depend on a min/max zero tie (JIT exemption of C02) or a NaN hashed by rand/mix are skipped and counted; x86-64 only.",
     "DESIGN.md 3/C20",
@@ -49,7 +49,7 @@ CLAIMED["C05"] = (
     "DESIGN.md 3/C05",
 )
 CLAIMED["C16"] = (
-    "runtime monitor against an independent closed-form f64 geometry model: every shape/transform struct of the library with random parameters and nesting, sign tests for primitives and CSG, T(s)(p)=s(T^-1 p) for transforms, periodicity/slab/symmetry tests, named axes and planes",
+    "runtime monitor against an independent closed-form f64 geometry model: every shape/transform struct of the library with random parameters and nesting, sign tests for primitives and CSG, T(s)(p)=s(T^-1 p) for transforms, periodicity/slab/symmetry tests, named axes and planes; axis vectors include exact (anti-)principal directions",
     "Held on every shape/point observed (all 26 structs exercised, floors per kind). Exploration over parameters and sample points.",
     "Only what the documentation states unambiguously is judged (list of non-judged aspects in the evidence assumptions); points within 1e-4 of a surface are skipped for sign tests.",
     "DESIGN.md 3/C16",
@@ -63,7 +63,7 @@ CLAIMED["C18"] = (
 )
 
 CLAIMED["C11"] = (
-    "crash monitor: every case in a child process with panic capture (catch_unwind + panic hook + progress file for aborts/SIGSEGV), all four evaluator kinds of both backends on finite points/boxes up to f32::MAX, shape wrappers with finite matrices, malformed-argument matrix; interval results checked for well-formedness; culprit op localised by prefix evaluation; witness shrinking",
+    "crash monitor: every case in a child process with panic capture (catch_unwind + panic hook + progress file for aborts/SIGSEGV), all four evaluator kinds of both backends on finite points/boxes up to f32::MAX, shape wrappers with finite matrices, malformed-argument matrix; interval results checked for well-formedness; culprit op localised by prefix evaluation; witness shrinking; long-lived shape evaluators reused across tapes with different variable and point counts",
     "No panic, process death, spurious/missing error value or ill-formed interval on any case observed. Exploration over generated programs and finite inputs.",
     "Inputs and constants are finite by construction; after the interpreter panicked on a box the JIT interval evaluator is not run on that box (same Interval code behind callbacks that abort).",
     "DESIGN.md 3/C11",
@@ -97,13 +97,13 @@ CLAIMED["C15"] = (
 )
 
 CLAIMED["C07"] = (
-    "differential runtime monitor: random CSG scenes (incl. big solids and thin parts) x voxel grids (w,h,d unequal, not tile multiples) x tile-size lists x affine 4x4 views x backend x thread pools; every column compared with the brute-force heightmap computed by the interpreter on the unsimplified shape (cross-checked against Context::eval), normals against an f64 dual-number gradient; VoxelTileDecision hook counts occluded/full/empty/recurse/pixel tiles; witness shrinking",
+    "differential runtime monitor: random CSG scenes (incl. big solids and thin parts) x voxel grids (w,h,d unequal, not tile multiples) x tile-size lists x affine 4x4 views x backend x thread pools; every column compared with the brute-force heightmap computed by the interpreter on the unsimplified shape (cross-checked against Context::eval), normals against an f64 dual-number gradient; VoxelTileDecision hook counts occluded/full/empty/recurse/pixel tiles; witness shrinking; thorough tier adds a Miri stage (12 interpreter-only voxel renders with odd sizes and 1-3 tile levels: the unchecked scratch index)",
     "Held on every render/column observed (about a million columns per quick run). Exploration.",
     "Columns with a negative voxel between the grid top and one largest tile beyond it are outside the claim (stated); zero-band/NaN columns skipped; normals not judged at non-differentiable loci.",
     "DESIGN.md 3/C07",
 )
 CLAIMED["C19"] = (
-    "runtime monitor: planted consistent linear systems (1..40 unknowns, stratified fixed/free layouts incl. none and all fixed, overdetermined, condition number <= 100 checked by SVD in f64), solved with the VM and JIT backends and a re-hashed parameter map; key set == free set, residual, backend agreement, bit-exact return of exact starting points, no panic/hang (child processes with a watchdog)",
+    "runtime monitor: planted consistent linear systems (1..40 unknowns, stratified fixed/free layouts incl. none and all fixed, overdetermined, condition number <= 100 checked by SVD in f64), solved with the VM and JIT backends and a re-hashed parameter map; key set == free set, residual, backend agreement, bit-exact return of exact starting points, no panic/hang (child processes with a watchdog); 15% of systems carry idle parameters that no equation uses",
     "Held on every system observed (all 40 sizes, all free counts mod 3). Exploration.",
     "Accuracy is judged only for consistent systems with condition number <= 100 (stated); a solve exceeding the 90 s watchdog is inconclusive-by-crash-monitor.",
     "DESIGN.md 3/C19",
@@ -137,7 +137,7 @@ CLAIMED["C14"] = (
 )
 
 CLAIMED["C09"] = (
-    "runtime monitoring of schedules with hooks and ThreadSanitizer: each 2D/3D/mesh scene run without a pool and under pools of 1..16 threads with seeded yields/sleeps injected at the verif-hooks points, results compared bit for bit / as triangle multisets; cancellation before the call, at every poll k (fault enumeration through the CancelPoll hook), and from a timer thread; offline checker over the hook event log (exactly-once start/end per tile or task, no start after the worker's poll saw the cancel, None iff a poll saw the flag; distinct schedule signatures counted); shared tapes of all kinds evaluated from 16 threads; then the reduced workload under a -Zsanitizer=thread -Zbuild-std build with reports classified by fidget frames",
+    "runtime monitoring of schedules with hooks and ThreadSanitizer: each 2D/3D/mesh scene run without a pool and under pools of 1..16 threads with seeded yields/sleeps injected at the verif-hooks points, results compared bit for bit / as triangle multisets; cancellation before the call, at every poll k (fault enumeration through the CancelPoll hook), and from a timer thread; offline checker over the hook event log (exactly-once start/end per tile or task, no start after the worker's poll saw the cancel, None iff a poll saw the flag; distinct schedule signatures counted); shared tapes of all kinds evaluated from 16 threads; then the reduced workload under a -Zsanitizer=thread -Zbuild-std build with reports classified by fidget frames; thorough tier adds a Miri stage (pooled vs unpooled 2D/3D/mesh toys under 4 preemption schedules of Miri's data-race detector, CancelToken raw round trip)",
     "Held on every schedule observed (thousands of distinct tile/task-to-thread schedules per quick run, cancel enumerated at every poll for ~200 scenes, zero ThreadSanitizer reports). Exploration of schedules, not exhaustive.",
     "TSan does not see accesses made by JIT-generated code (they touch per-thread buffers; covered by the guard-page allocator in C02/C10); liveness is observed as bounded progress.",
     "DESIGN.md 3/C09",
